@@ -53,6 +53,26 @@ def _sets(ctx, rng, tier):
                 cells += [c for c in d2 if c not in cells]
         rng.shuffle(cells)
         sets.append((kind, cells))
+    # sets straddling an icosahedron edge exactly where it crosses the equator / prime meridian / antimeridian, at
+    # the fine resolutions (vertex hashing and vertex equality see a coordinate ~0 computed through two faces)
+    from props.C03 import axis_seam_points
+    sp = axis_seam_points(ctx)
+    if tier == "quick":
+        sp = rng.sample(sp, min(len(sp), 8))
+    for (la, ln) in sp:
+        for res in ((rng.randrange(11, 16), rng.randrange(3, 11)) if tier == "quick" else range(3, 16)):
+            a = ctx.c([f"ll2c {f2bits(la)} {f2bits(ln)} {res}"], tag="seam")[0]
+            if not ok(a):
+                continue
+            o = int(a.split()[1], 16)
+            d = nb.bfs(o, 2)
+            if not d:
+                continue
+            cells = list(d.keys())
+            if rng.random() < 0.5:
+                cells.remove(o)
+            rng.shuffle(cells)
+            sets.append(("axis-seam", cells))
     # bullseyes: centre + hollow ring at distance 3 + hollow ring at distance 5 (+ a separate island):
     # a hole nested inside two outer loops, next to outer loops that do not contain it
     for i in range(110 if tier == "quick" else 1500):
